@@ -437,4 +437,11 @@ def stepformat(ctx, R):
         R.check(k.startswith("renderer.curveTo(") and k.endswith(", [bx, by])"), "C09.STEPFORMAT", "renderer.%s" % name, where(f), "the curve ends at the second point", "renderer.%s returns %s: the curve must end at its second argument" % (name, k[:120]))
 
 
-RULES = [main_axis, ticks, labels, dots, colours, link, stepformat]
+def _hex(ctx, R):
+    from .c20 import hex_agree
+    return hex_agree(ctx, R)
+
+
+_hex.rule_id = "C20.HEX-AGREE"
+
+RULES = [main_axis, ticks, labels, dots, colours, link, stepformat, _hex]
